@@ -76,7 +76,7 @@ def run_cap(res, task):
     for init, times in wsim.waveforms(4):
         if init + len(times) + 1 > cap: continue
         for ovl in (False, True):
-            Ts = [None] + [0.75 + 0.25 * i for i in range(0, 16)]
+            Ts = [None, 0.0, -0.5] + [0.75 + 0.25 * i for i in range(0, 16)]
             for T in Ts:
                 cap_case(res, {'kind': 'cap', 'cap': cap, 'init': init, 'times': times, 'ovl': ovl, 'T': T})
     res.samples.append({'kind': 'cap', 'cap': cap, 'init': 1, 'times': [1.0, 3.0], 'ovl': False, 'T': 2.0})
@@ -179,7 +179,7 @@ def w2_case(res, case):
             else:
                 res.count('w2_overflow_flags')
     # a second capture on the same simulator object with another capture time
-    T2 = 2.5 if T != 2.5 else 1.25
+    T2 = 0.0 if (case['T'] is None or case['T'] > 2) else 2.5     # capture time 0.0 (the default launch time) is a legitimate time, too
     sim.c_to_s(time=T2)
     for j, pos in enumerate(opos + spos):
         node = (b.out_nodes + b.st_nodes)[j]
@@ -213,7 +213,7 @@ def w2_case(res, case):
 
 def run_w2(res, task):
     tier, seed = task[4], task[5]
-    Ts = [None, 0.75, 1.0, 2.0, 3.25, 4.0, 6.0]
+    Ts = [None, 0.75, 1.0, 2.0, 3.25, 4.0, 6.0, 0.0, -1.0]
     for idx, nl in enumerate(W.w2_circuits(task)):
         if tier == 'quick' and idx % 2 != seed % 2 and task[1] != 'wide': continue
         si = (idx // 2 if tier == 'quick' else idx) % len(STYLES)
